@@ -56,6 +56,27 @@ func init() {
 						{Op: "sub", H: "t", Tags: map[string]string{"k": "v"}}, {Op: "inc", H: "t", M: "c", V: 1}}},
 					{Name: "p1", Ops: []Op{{Op: "pass"}, {Op: "pass"}}},
 				}}})
+			// a sanitizer that rewrites the tags: the registry knows such a scope under two keys (as given, as sanitized);
+			// close, obtain again with the same raw tags, record across two passes.  (Two DIFFERENT raw spellings of one
+			// sanitized identity are not "the same prefix and tags" of C07 and not "inputs the sanitizer leaves unchanged" of
+			// C05: such scenarios are deliberately not generated - see DESIGN.md, observations outside the properties.)
+			raw := map[string]string{"data-center": "x y"}
+			raw2 := raw
+			sanOps := []Op{{Op: "sub", H: "h", Tags: raw}, {Op: "inc", H: "h", M: "c", V: 1}, {Op: "close", H: "h"},
+				{Op: "sub", H: "h", Tags: raw}, {Op: "inc", H: "h", M: "c", V: 2}}
+			out = append(out, scenarioSet{mode: "dfs", maxExec: 4000, sc: &Scenario{
+				Name: "c07-sanitized-" + rep, Reporter: rep, Sanitize: true, Points: []string{"op_sub", "op_inc", "op_close", "op_pass"},
+				Threads: []ThreadSpec{
+					{Name: "a1", Ops: append(append([]Op{}, sanOps...), Op{Op: "inc", H: "h", M: "c", V: 3})},
+					{Name: "p1", Ops: []Op{{Op: "pass"}, {Op: "pass"}}},
+				}}})
+			out = append(out, scenarioSet{mode: "random", maxExec: n / 2, sc: &Scenario{
+				Name: "c07-sanitized-two-" + rep, Reporter: rep, Sanitize: true, Shards: 2, Loop: true, MaxTicks: 2,
+				Threads: []ThreadSpec{
+					{Name: "a1", Ops: append(append([]Op{}, sanOps...), Op{Op: "close", H: "h"}, Op{Op: "sub", H: "h", Tags: raw2}, Op{Op: "inc", H: "h", M: "c", V: 1})},
+					{Name: "a2", Ops: []Op{{Op: "sub", H: "g", Tags: raw2}, {Op: "inc", H: "g", M: "c", V: 1}, {Op: "close", H: "g"}, {Op: "sub", H: "g", Tags: raw}, {Op: "inc", H: "g", M: "c", V: 2}}},
+					{Name: "p1", Ops: []Op{{Op: "pass"}}},
+				}}})
 		}
 		return out
 	}
